@@ -220,6 +220,11 @@ def install(reg):
         return Tup([chain, hist])
 
     def chain_getitem(I, a, k, n):
+        idx = a[1]
+        if isinstance(idx, tuple) and idx[0] == "slice":
+            m = z3.Int(fresh("n_chain_rows"))
+            I.path.assume(m >= 1, check=False)
+            return base_arr(fresh("thinned_chain"), "row", m)
         return a[0].f["last"]
 
     reg.handlers["minipcn.Sampler"] = minipcn_sampler
@@ -240,6 +245,11 @@ def install(reg):
         return NONE
 
     def emcee_chain(I, a, k, n):
+        fl = k.get("flat", B(False))
+        if I.is_true(fl):
+            m = z3.Int(fresh("n_chain_rows"))
+            I.path.assume(m >= 1, check=False)
+            return base_arr(fresh("flat_chain"), "row", m)
         return Obj("Chain", {"last": a[0].f["last"]})
 
     reg.handlers["emcee.EnsembleSampler"] = emcee_sampler
